@@ -2,7 +2,7 @@
    input types. Statements only; proofs are in Proofs/CoerceProofs.v, the
    judgements ([conforms], [spelled]/[natural], [wrong], [wrong_lit], [var_at],
    [usage_ok]) in Spec/CoerceSpec.v, the model in Exec/CoerceModel.v. *)
-From PyGql Require Import Spec.CoerceSpec Proofs.CoerceProofs Proofs.CoerceValidBridge.
+From PyGql Require Import Spec.CoerceSpec Proofs.CoerceProofs Proofs.CoerceAgreeCheck Proofs.CoerceValidBridge.
 From PyGql Require Proofs.DirIfCoercion.
 From PyGql Require Import Proofs.CoerceCheck.
 From Coq Require Import ZArith.
@@ -78,6 +78,26 @@ Theorem C07_arg_routes_agree : forall s d j l v nm lc xn lcv lc' vs0,
 Proof. exact arg_routes_agree. Qed.
 Print Assumptions C07_arg_routes_agree.
 
+(* The property's sentence at the level of a request: the same field with the
+   value written inline, or passed through a variable declared with the
+   argument's type and given the JSON value -- the resolver gets the same
+   kwargs (defaults of nested input objects filled in, single values wrapped).
+   Remaining hypotheses: schema_wf (used for "enum internal values are not
+   None" and "declared defaults conform"), the argument's type is a known input
+   type; [spelled] itself asks for distinct field names in an input type and
+   distinct keys in a JSON object. *)
+Theorem C07_request_routes_agree : forall s d j l nm lc x lx tyast lv lcv lc' td,
+  schema_wf s ->
+  spelled s (f_ty d) j l -> n_val nm = f_name d ->
+  ity_of_ty tyast = f_ty d ->
+  alookup (ity_name (f_ty d)) s = Some td -> is_input_def td = true ->
+  exists v,
+    exec_kwargs s [d] [] [Arg nm l lc] [] = Ok [(f_py d, v)]
+    /\ exec_kwargs s [d] [VarDef x lx tyast None [] lv] [Arg nm (VVar x lcv) lc'] [(n_val x, j)]
+       = Ok [(f_py d, v)].
+Proof. exact request_routes_agree. Qed.
+Print Assumptions C07_request_routes_agree.
+
 (* Natural JSON values -- including the boundary integers -2^31 and 2^31-1,
    omitted fields with defaults, a single value in a list position -- are
    accepted. *)
@@ -125,6 +145,33 @@ Theorem C07_lenient_witnesses :
                       (INamed false (str_of_string "String")) = Ok (PStr (str_of_string "123"))).
 Proof. exact lenient_witnesses. Qed.
 Print Assumptions C07_lenient_witnesses.
+
+(* The property's full demand ([wrong_full]: [wrong] without the guard, every
+   foreign JSON kind counts) fails ONLY through the two open findings: a wrong
+   value that is accepted contains, at a scalar position, a string for Int /
+   Float or a number for String ... *)
+Theorem C07_wrong_accepted_only_if_lenient : forall s t j v,
+  wrong_full s t j -> coerce_value s j t = Ok v -> lenient_inside s t j.
+Proof. exact wrong_accepted_only_if_lenient. Qed.
+Print Assumptions C07_wrong_accepted_only_if_lenient.
+
+(* ... the guarded and the full notion differ by nothing else ... *)
+Theorem C07_wrong_full_iff : forall s t j,
+  wrong_full s t j <-> (wrong s t j \/ (wrong_full s t j /\ lenient_inside s t j)).
+Proof.
+  intros s t j. split.
+  - intros H. destruct (wrong_full_split s t j H); auto.
+  - intros [H|[H _]]; [apply wrong_is_wrong_full; exact H|exact H].
+Qed.
+Print Assumptions C07_wrong_full_iff.
+
+(* ... and at a scalar position a foreign kind is accepted exactly when
+   [lenient_accepts] says so (a numeric string -- blanks, a leading +, single
+   underscores between digits included -- for Int / Float; any number for String) *)
+Theorem C07_foreign_accepted_iff : forall k j,
+  scalar_kind_foreign k j -> ((exists v, parse_scalar k j = Ok v) <-> lenient_accepts k j = true).
+Proof. exact foreign_accepted_iff. Qed.
+Print Assumptions C07_foreign_accepted_iff.
 
 (* C07_rejects_var is _partial in one respect: its "structurally wrong
    scalar" clause ([scalar_kind_mismatch]) leaves out exactly the acceptances
@@ -428,6 +475,31 @@ Theorem C07_validated_directive_args_sound :
   /\ (forall a, In a defs -> f_default a <> None \/ ity_nn (f_ty a) = true -> In (f_py a) (map fst kw)).
 Proof. exact validated_directive_args_sound. Qed.
 Print Assumptions C07_validated_directive_args_sound.
+
+(* ... with the C07-side assumptions as decidable checks that the
+   correspondence run evaluates on the two serialisations of one real py_gql
+   schema (this property's and the validation model's): schema_okb / args_okb
+   (C07_checkers_sound), schema_agreeb / field_args_agreeb (sound below) *)
+Theorem C07_agree_checkers_sound :
+  (forall s s', schema_agreeb s s' = true -> schema_agree s s')
+  /\ (forall s' p n defs, field_args_agreeb s' p n defs = true ->
+        exists f, V.get_field_def s' p n = Some f /\ V.sf_args f = map sarg_of defs).
+Proof. split; [exact schema_agreeb_sound|exact field_args_agreeb_sound]. Qed.
+Print Assumptions C07_agree_checkers_sound.
+
+Theorem C07_validated_request_sound_checked :
+  forall fuel s s' d op p a n args dirs sl sb l defs raw kw,
+  schema_okb s = true -> args_okb s defs = true ->
+  schema_agreeb s s' = true -> field_args_agreeb s' p (n_val n) defs = true ->
+  VV.wf_inputs s' -> VT.wf_arg_types s' -> VT.wf_var_types s' d ->
+  VO.validate_rules fuel s' d VO.rules_but_overlap = Ok [] ->
+  In op (doc_defs d) -> VS.is_operation op ->
+  node_in_operation s' d op p (SField a n args dirs sl sb l) ->
+  exec_kwargs s defs (VL.op_vars op) args raw = Ok kw ->
+  NoDup (map fst kw)
+  /\ forall k v, In (k, v) kw -> exists d0, In d0 defs /\ f_py d0 = k /\ conforms s (f_ty d0) v.
+Proof. exact validated_request_sound_checked. Qed.
+Print Assumptions C07_validated_request_sound_checked.
 
 (* usage_ok is satisfiable by the ordinary cases: a list variable for a list
    argument, a stricter variable inside an object literal *)
